@@ -18,12 +18,12 @@ import selftest_py2lean_window as st  # noqa: E402
 
 TOUCH = 'self._last_accessed[label] = self._last_accessed.pop(label, None)'
 HIT = f'            for label in labels: # update LRU position\n                {TOUCH}\n            return\n'
-READ = '            if frame is FrameDeferred:\n                frame = next(store_reader)\n'
-TOUCH2 = ('            if max_persist_active: # update LRU position, after the read: a failed read must not leave an unloaded label in the LRU\n'
-          f'                {TOUCH}\n')
-EVICT = ('                label_remove = next(iter(self._last_accessed))\n'
-         '                del self._last_accessed[label_remove]\n')
-TAIL = '                own_index=True,\n                )\n        self._loaded_all = self._loaded.all()\n'
+READ = '                if frame is FrameDeferred:\n                    frame = next(store_reader)\n'
+TOUCH2 = ('                if max_persist_active: # update LRU position, after the read: a failed read must not leave an unloaded label in the LRU\n'
+          f'                    {TOUCH}\n')
+EVICT = ('                    label_remove = next(iter(self._last_accessed))\n'
+         '                    del self._last_accessed[label_remove]\n')
+TAIL = '                    own_index=True,\n                    )\n            self._loaded_all = self._loaded.all()\n'
 
 # (id, what, old text, new text, expectation)  - see selftest_py2lean_window.py for the expectations
 MUTATIONS = [
@@ -34,8 +34,8 @@ MUTATIONS = [
     ('b04', 'cache hit: the LRU is not updated at all', HIT, '            for label in labels: # update LRU position\n                pass\n            return\n', 'sem'),
     ('b05', 'cache hit: d[label] = None instead of d[label] = d.pop(label, None) (no move to the end)', HIT,
      '            for label in labels: # update LRU position\n                self._last_accessed[label] = None\n            return\n', 'sem'),
-    ('b06', '_loaded_all never set again (assignment removed)', TAIL, '                own_index=True,\n                )\n', 'sem'),
-    ('b07', '_loaded_all = self._loaded.all() -> = True', TAIL, '                own_index=True,\n                )\n        self._loaded_all = True\n', 'sem'),
+    ('b06', '_loaded_all never set again (assignment removed)', TAIL, '                    own_index=True,\n                    )\n', 'sem'),
+    ('b07', '_loaded_all = self._loaded.all() -> = True', TAIL, '                    own_index=True,\n                    )\n            self._loaded_all = True\n', 'sem'),
     ('b08', 'load = ... not self._loaded[key].all() -> self._loaded[key].all()', 'else not self._loaded[key].all()', 'else self._loaded[key].all()', 'sem'),
     ('b09', 'early return: not load and not max_persist_active -> or', 'if not load and not max_persist_active:', 'if not load or not max_persist_active:', 'sem'),
     ('b10', 'hit test operands swapped (both pure)', 'if not load and max_persist_active: # must update LRU position',
@@ -47,8 +47,8 @@ MUTATIONS = [
     ('b15', 'loaded_count -= 1 -> -= 2', 'loaded_count -= 1', 'loaded_count -= 2', 'sem'),
     ('b16', 'evicted flag: self._loaded[idx_remove] = False -> True', 'self._loaded[idx_remove] = False', 'self._loaded[idx_remove] = True', 'sem'),
     ('b17', 'evicted cell keeps a frame: array[idx_remove] = FrameDeferred -> frame', 'array[idx_remove] = FrameDeferred', 'array[idx_remove] = frame', 'sem'),
-    ('b18', 'the frame read is not stored (array[idx] = frame removed)', '                array[idx] = frame\n', '                pass\n', 'sem'),
-    ('b19', 'the evicted label stays in the LRU (del removed)', '                del self._last_accessed[label_remove]\n', '                pass\n', 'sem'),
+    ('b18', 'the frame read is not stored (array[idx] = frame removed)', '                    array[idx] = frame\n', '                    pass\n', 'sem'),
+    ('b19', 'the evicted label stays in the LRU (del removed)', '                    del self._last_accessed[label_remove]\n', '                    pass\n', 'sem'),
     ('b20', 'the position evicted is the one just loaded: idx_remove = idx', 'idx_remove = index._loc_to_iloc(label_remove)', 'idx_remove = idx', 'sem'),
     ('b21', 'labels handed to _store_reader: the loaded ones (is not FrameDeferred)', 'for label, f in targets.items() if f is FrameDeferred)',
      'for label, f in targets.items() if f is not FrameDeferred)', 'sem'),
@@ -64,21 +64,22 @@ MUTATIONS = [
     ('b31', 'labels to read chosen by the live flags instead of the snapshot (seeded change m-live-mask)', 'for label, f in targets.items() if f is FrameDeferred)',
      'for label, f in targets.items() if not self._loaded[index._loc_to_iloc(label)])', 'sem'),
     ('b32', 'eviction test before the flag update (block moved up)', None, None, 'sem'),
-    ('b33', 'OrderedDict API on the plain dict: d.popitem(last=False)', EVICT, '                label_remove, _ = self._last_accessed.popitem(last=False)\n', 'sem'),
+    ('b33', 'OrderedDict API on the plain dict: d.popitem(last=False)', EVICT, '                    label_remove, _ = self._last_accessed.popitem(last=False)\n', 'sem'),
+    ('b35', 'the finally block removed: try / finally -> plain loop followed by the re-binding (the defect F96 again)', '        try:\n            for label, frame in targets_items:', '        if True:\n            for label, frame in targets_items:', 'sem'),
     ('b34', 'independent statements swapped: loaded_count initialised after the copy of the cells (same meaning)', None, None, 'equiv'),
 ]
 
-MARK = ('            if not self._loaded[idx]:\n'
-        '                # as we are iterating from `targets`, we might be holding on to references of Frames that we already removed in `array`; in this case we do not need to `read`, but we still need to update the new array\n'
-        '                array[idx] = frame\n'
-        '                self._loaded[idx] = True # update loaded status\n'
-        '                if max_persist_active:\n'
-        '                    loaded_count += 1\n')
-EVICT_BLOCK = ('            if max_persist_active and loaded_count > self._max_persist:\n' + EVICT +
-               '                idx_remove = index._loc_to_iloc(label_remove)\n'
-               '                self._loaded[idx_remove] = False\n'
-               '                array[idx_remove] = FrameDeferred\n'
-               '                loaded_count -= 1\n')
+MARK = ('                if not self._loaded[idx]:\n'
+        '                    # as we are iterating from `targets`, we might be holding on to references of Frames that we already removed in `array`; in this case we do not need to `read`, but we still need to update the new array\n'
+        '                    array[idx] = frame\n'
+        '                    self._loaded[idx] = True # update loaded status\n'
+        '                    if max_persist_active:\n'
+        '                        loaded_count += 1\n')
+EVICT_BLOCK = ('                if max_persist_active and loaded_count > self._max_persist:\n' + EVICT +
+               '                    idx_remove = index._loc_to_iloc(label_remove)\n'
+               '                    self._loaded[idx_remove] = False\n'
+               '                    array[idx_remove] = FrameDeferred\n'
+               '                    loaded_count -= 1\n')
 COUNT = '        if max_persist_active:\n            loaded_count = self._loaded.sum()\n'
 COPY = '        array = self._series.values.copy() # not a deepcopy\n'
 
